@@ -30,7 +30,11 @@ CONSTANTS MaxObj,      \* channel objects that may ever exist
           MaxLoss,     \* RE-CONFIG datagrams the network may lose
           Dev          \* subset of DevNames
 
-DevNames == {"NoReconfigRetx",         \* K02 (repaired): a lost RE-CONFIG request / response is never sent again
+\* "TwoWayClose" is not a defect but a design option (a proposed repair of K03, RFC 8831 6.7): a
+\* stream id is released only when BOTH directions have been reset - the own outgoing reset is
+\* confirmed AND the peer's reset request for the stream has been seen.
+DevNames == {"TwoWayClose",
+             "NoReconfigRetx",         \* K02 (repaired): a lost RE-CONFIG request / response is never sent again
              "DupRequestReprocessed",  \* a retransmitted request resets the streams a second time
              "AckReopens",             \* fixed e27f12d: ACK sets `open` unconditionally
              "ResetBeforeAck",         \* fixed 27baa27: reset sent while stream data is outstanding
@@ -53,13 +57,15 @@ VARIABLES
   bag,      \* RE-CONFIG chunks in flight: set of [to, kind, ids, n]
   nreq,     \* e -> reset request sequence number
   rdone,    \* e -> number of the peer's last request handled here (0: none) (_reconfig_response_seq)
+  half,     \* e -> (TwoWayClose) ids whose outgoing reset is confirmed, incoming reset still awaited
+  inres,    \* e -> (TwoWayClose) ids whose incoming reset has been seen, outgoing reset not yet confirmed
   closed,   \* objects on which close() was called
   bad,      \* first violated clause observed inside an action ("" if none)
   nsend, ncreate, nlost,
   act       \* the action that led here, with its parameters (history; hidden by View; used by the lock-step replay)
 
-vars == <<obj, est, reg, dcq, fifo, rq, req, bag, nreq, rdone, closed, bad, nsend, ncreate, nlost, act>>
-View == <<obj, est, reg, dcq, fifo, rq, req, bag, nreq, rdone, closed, bad, nsend, ncreate, nlost>>
+vars == <<obj, est, reg, dcq, fifo, rq, req, bag, nreq, rdone, half, inres, closed, bad, nsend, ncreate, nlost, act>>
+View == <<obj, est, reg, dcq, fifo, rq, req, bag, nreq, rdone, half, inres, closed, bad, nsend, ncreate, nlost>>
 
 NoObj == [used |-> FALSE, owner |-> "A", id |-> NoId, rs |-> 0, remote |-> FALSE, pair |-> 0, nopen |-> 0, nclose |-> 0]
 FreeObjs == {o \in Objs : ~obj[o].used}
@@ -78,16 +84,19 @@ Init ==
   /\ dcq = [e \in E |-> <<>>] /\ fifo = [e \in E |-> <<>>]
   /\ rq = [e \in E |-> <<>>] /\ req = [e \in E |-> {}]
   /\ bag = {} /\ nreq = [e \in E |-> 0] /\ rdone = [e \in E |-> 0]
+  /\ half = [e \in E |-> {}] /\ inres = [e \in E |-> {}]
   /\ closed = {} /\ bad = "" /\ nsend = 0 /\ ncreate = 0 /\ nlost = 0
   /\ act = [op |-> "init"]
 
 -----------------------------------------------------------------------------
 (* State transformers on a record st = [obj, reg, dcq, fifo, rq, req, bag, nreq] *)
 
-St == [obj |-> obj, reg |-> reg, dcq |-> dcq, fifo |-> fifo, rq |-> rq, req |-> req, bag |-> bag, nreq |-> nreq]
+St == [obj |-> obj, reg |-> reg, dcq |-> dcq, fifo |-> fifo, rq |-> rq, req |-> req, bag |-> bag, nreq |-> nreq,
+       half |-> half, inres |-> inres]
 Commit(st) ==
   /\ obj' = st.obj /\ reg' = st.reg /\ dcq' = st.dcq /\ fifo' = st.fifo
   /\ rq' = st.rq /\ req' = st.req /\ bag' = st.bag /\ nreq' = st.nreq
+  /\ half' = st.half /\ inres' = st.inres
 
 FirstFreeId(st, e) ==
   LET base == IF e = "A" THEN 1 ELSE 0
@@ -243,7 +252,16 @@ DeliverReconfig(m) ==
                 CloseAll(s, ids) ==
                   IF ids = {} THEN s
                   ELSE LET i == CHOOSE x \in ids : TRUE
-                       IN CloseAll(IF i \in DOMAIN s.reg[e] THEN CloseCh(s, e, s.reg[e][i]) ELSE s, ids \ {i})
+                           s1 == IF "TwoWayClose" \notin Dev
+                                   THEN (IF i \in DOMAIN s.reg[e] THEN CloseCh(s, e, s.reg[e][i]) ELSE s)
+                                 ELSE IF i \in s.half[e]          \* own reset already confirmed: both directions done
+                                   THEN [ClosedCh(s, e, i) EXCEPT !.half[e] = @ \ {i}]
+                                 ELSE IF i \in DOMAIN s.reg[e]    \* reset the own direction too, remember the peer's
+                                   THEN [CloseCh(s, e, s.reg[e][i]) EXCEPT !.inres[e] = @ \cup {i}]
+                                 ELSE \* no object (any more): the outgoing stream is reset all the same
+                                      TxReconfig([s EXCEPT !.rq[e] = IF i \in req[e] \/ \E k \in 1..Len(@) : @[k] = i
+                                                                        THEN @ ELSE Append(@, i)], e)
+                       IN CloseAll(s1, ids \ {i})
                 \* a retransmitted request is only answered again
                 st1 == IF m.n = rdone[e] /\ "DupRequestReprocessed" \notin Dev THEN st0 ELSE CloseAll(st0, m.ids)
             IN /\ Commit([st1 EXCEPT !.bag = @ \cup {[to |-> Peer(e), kind |-> "RESP", ids |-> m.ids, n |-> m.n]}])
@@ -252,10 +270,15 @@ DeliverReconfig(m) ==
        ELSE IF req[e] # {} /\ m.n = nreq[e]
               THEN LET RECURSIVE Fin(_, _)
                        Fin(s, ids) == IF ids = {} THEN s
-                                      ELSE LET i == CHOOSE x \in ids : TRUE IN Fin(ClosedCh(s, e, i), ids \ {i})
+                                      ELSE LET i == CHOOSE x \in ids : TRUE
+                                               s1 == IF "TwoWayClose" \notin Dev THEN ClosedCh(s, e, i)
+                                                     ELSE IF i \in s.inres[e] \/ i \notin DOMAIN s.reg[e]
+                                                       THEN [ClosedCh(s, e, i) EXCEPT !.inres[e] = @ \ {i}]
+                                                     ELSE [s EXCEPT !.half[e] = @ \cup {i}]    \* wait for the peer's reset
+                                           IN Fin(s1, ids \ {i})
                        st1 == Fin(st0, req[e])
                    IN /\ Commit(TxReconfig([st1 EXCEPT !.req[e] = {}], e))
-                      /\ bad' = (IF bad = "" /\ \E i \in req[e] : i \notin DOMAIN reg[e]
+                      /\ bad' = (IF bad = "" /\ "TwoWayClose" \notin Dev /\ \E i \in req[e] : i \notin DOMAIN reg[e]
                                    THEN "reset_of_unregistered_stream" ELSE bad)
                       /\ UNCHANGED rdone
               ELSE Commit(st0) /\ UNCHANGED <<bad, rdone>>
@@ -266,7 +289,7 @@ LoseReconfig(m) ==
   /\ m \in bag /\ nlost < MaxLoss
   /\ bag' = bag \ {m} /\ nlost' = nlost + 1
   /\ act' = [op |-> "lose", e |-> m.to, kind |-> m.kind, ids |-> m.ids, n |-> m.n]
-  /\ UNCHANGED <<obj, est, reg, dcq, fifo, rq, req, nreq, rdone, closed, bad, nsend, ncreate>>
+  /\ UNCHANGED <<obj, est, reg, dcq, fifo, rq, req, nreq, rdone, half, inres, closed, bad, nsend, ncreate>>
 
 \* _reconfig_timer_expired: the pending request is sent again.  The model lets the timer
 \* fire only when no datagram of the exchange is in flight any more (a real time-out comes
@@ -277,7 +300,7 @@ RetxReconfig(e) ==
   /\ RetxEnabled(e)
   /\ bag' = bag \cup {[to |-> Peer(e), kind |-> "REQ", ids |-> req[e], n |-> nreq[e]]}
   /\ act' = [op |-> "retx", e |-> e]
-  /\ UNCHANGED <<obj, est, reg, dcq, fifo, rq, req, nreq, rdone, closed, bad, nsend, ncreate, nlost>>
+  /\ UNCHANGED <<obj, est, reg, dcq, fifo, rq, req, nreq, rdone, half, inres, closed, bad, nsend, ncreate, nlost>>
 
 \* _set_state(CLOSED): abort / shutdown / transport failure at e
 AssocEnd(e) ==
@@ -291,6 +314,7 @@ AssocEnd(e) ==
         /\ reg' = [reg EXCEPT ![e] = <<>>]
         /\ dcq' = [dcq EXCEPT ![e] = <<>>]
   /\ act' = [op |-> "end", e |-> e]
+  /\ half' = [half EXCEPT ![e] = {}] /\ inres' = [inres EXCEPT ![e] = {}]
   /\ UNCHANGED <<fifo, rq, req, bag, nreq, rdone, closed, bad, nsend, ncreate, nlost>>
 
 Next ==
